@@ -108,11 +108,18 @@ def run_session(job):
         segs = segs_of(st["ref"], [tuple(h) for h in st["hap"]], base=opts.get("hapbase", 1))
         # contig names are free text too: in three sessions of four the non-reference contig is called "e", "ref_contig" (the
         # name of the extra key the index carries) or "1"
-        altname = [None, "e", "ref_contig", "1"][zlib.crc32(("ctg" + sid).encode()) % 4]
+        # ... or like an HLA allele / a region-style name, with colons in it
+        # (not in the region check: a name with ':' cannot be addressed by the contig:start-end syntax of --region)
+        altname = [None, "e", "ref_contig", "1", "HLA-A*01:01:01" if mode != "C05" else "HLA-A*01"][zlib.crc32(("ctg" + sid).encode()) % 5]
         if altname:
             for g_ in segs.values():
                 if g_["sr"] != 0:
                     g_["sn"] = altname
+        # one session in three has an assembly-prefixed reference name with a hyphen in it
+        if zlib.crc32(("ref" + sid).encode()) % 3 == 1:
+            for g_ in segs.values():
+                if g_["sr"] == 0:
+                    g_["sn"] = "GRCh38-chr1"
         scale = opts.get("scale", 1)
         if scale > 1:       # the same session on a larger scale: coordinates with different numbers of digits
             for g in segs.values():
